@@ -30,6 +30,13 @@ CHECKS = {
             "(heading tokens may be covered by heading paths), unit numbers must be the 1-based source positions, and get_full_text() must equal the trimmed newline-join for the formats the property lists.",
             "Same generators as C02; flowing-text formats may produce one unit or one per heading section.",
             "DESIGN.md §8 C03, Appendix A"),
+    "C04": ("exploration",
+            "icontract post-conditions installed reflectively on every accessor of every data_types class; workload of fixtures, generated and mutated-but-accepted inputs x path-argument grammar",
+            "Record-only icontract post-conditions (text accessors return UTF-8-encodable str, unit/image numbers are positive ints, get_bytes() is a binary stream at position 0 of the reported size, "
+            "get_dim() equals the table shape) are evaluated on every accessor call of every result, unit, image and table the workload produces; accessors that raise, file metadata not derived "
+            "from the path argument (9 path forms incl. None, non-existent, unicode, archive!/member, existing file) and textual document properties differing from what the generator stored are reported.",
+            "Contracts observe only classes the workload reaches (17 content classes required, else inconclusive); properties compared per DESIGN.md Appendix B.",
+            "DESIGN.md §8 C04, Appendix B"),
     "C07": ("exploration",
             "recording stubs on the 21 extractor functions + README-derived routing table; path grammar x 5 mimetypes configurations, each in its own worker process",
             "A routing table transcribed by hand from the README decides which extractor every documented extension/alias must reach; a path grammar (all known extensions, case variants, "
